@@ -543,3 +543,65 @@ def rule_value_flag_not_read(db: ProgramDB) -> List[Instance]:
     if n < 5:
         raise AnalysisError(f"only {n} operand(s) evaluated as values found")
     return out
+
+
+# ---------------------------------------------------------------------------------- BOUND-AGAIN-ONCE
+def rule_bound_again_once(db: ProgramDB) -> List[Instance]:
+    """An expression object that finds itself bound already (`self._id_ in sources`: the same object occurs a second time in the
+    condition) answers for that one binding: it hands the incoming row on - or not, by its truth - and is done.  Path rule: in the
+    region guarded by that test, after a row was yielded every path reaches the end of the generator without yielding again and
+    without evaluating an operand or consulting a cache.  Falling through into the ordinary evaluation yields the row a second
+    time (each qualifying object twice: and_(or_(c, A), or_(c, B)) with one comparison object c)."""
+    out = []
+    se = db.cls("SymbolicExpression")
+    n = 0
+    for c in sorted([se] + se.all_subclasses(), key=lambda k: k.qualname):
+        for m in c.methods.values():
+            if m.cls is not c or not m.is_generator or not is_eval_name(m.name):
+                continue
+            cfg = None
+            for t_if in [x for x in own_nodes(m.node) if isinstance(x, ast.If) and isinstance(x.test, ast.Compare) and len(x.test.ops) == 1
+                         and isinstance(x.test.ops[0], ast.In) and unparse(x.test.left) == "self._id_"]:
+                # does any row ever bind this node's own identifier?  (a class whose rows never do cannot find itself bound: the branch is dead)
+                binds = False
+                for k in [c] + c.all_subclasses() + list(c.mro):
+                    for mm in k.methods.values():
+                        if not (mm.is_generator or is_eval_name(mm.name)):
+                            continue             # rows are built by evaluation code (the constructor registers the node under its id: no row)
+                        for z in own_nodes(mm.node):
+                            if isinstance(z, ast.Dict) and any(kk is not None and unparse(kk) == "self._id_" for kk in z.keys):
+                                binds = True
+                            if isinstance(z, ast.Subscript) and isinstance(z.ctx, ast.Store) and unparse(z.slice) == "self._id_":
+                                binds = True
+                if not binds:
+                    out.append(inst("BOUND-AGAIN-ONCE", INFO, m, f"{m.short}[bound already: one answer]",
+                                    "no row of this class (or of a class that shares the method) binds the node's own identifier: the branch cannot be taken", line=t_if.lineno))
+                    continue
+                cfg = cfg or CFG(m)
+                region = {id(y) for st_ in t_if.body for y in ast.walk(st_)}
+                ys = [nd for nd in cfg.nodes if nd.has_yield and nd.ast is not None and id(nd.ast) in region or (nd.has_yield and nd.stmt is not None and id(nd.stmt) in region)]
+                if not ys:
+                    continue
+                n += 1
+                bad = None
+                for y in ys:
+                    def more(nd, y=y):
+                        if nd.id == y.id or nd.ast is None:
+                            return False
+                        if nd.has_yield:
+                            return True
+                        return any(isinstance(z, ast.Call) and (is_eval_name(call_attr(z) or "") or call_attr(z) in ("check", "retrieve", "yield_final_output_from_cache"))
+                                   for z in ast.walk(nd.ast if nd.kind != "for" else nd.ast.iter))
+                    p = cfg.find_path(y.id, more, kinds=("n",))
+                    if p is not None:
+                        bad = (y, cfg.nodes[p[-1].dst], p)
+                        break
+                out.append(inst("BOUND-AGAIN-ONCE", VIOLATION if bad else HOLDS, m, f"{m.short}[bound already: one answer]",
+                                "after the row for the existing binding the generator ends" if not bad else
+                                f"after `{bad[0].src()[:40]}` in the 'bound already' branch the generator goes on to `{bad[1].src()[:60]}` (line {bad[1].lineno}): the incoming row is "
+                                f"answered a second time from the ordinary evaluation (or the cache) - every qualifying object comes back twice when one condition object is used "
+                                f"in two places of the condition", line=bad[0].lineno if bad else t_if.lineno))
+    if n < 3:
+        raise AnalysisError(f"only {n} 'bound already' branches found")
+    return out
+
